@@ -193,6 +193,9 @@ def chunks(tier, seed):
     for i, sk in enumerate(sched_corpus("quick")):
         if tier == "thorough" or i % 6 == 0:  # the line-by-line write monitor is evidence (write set), not an oracle
             out.append({"kind": "writemon", "tier": tier, "index": i})
+    # long work units first (the pool hands them out in order): better load balance, same enumeration
+    rank = {"hashseed": 0, "sched": 1, "writemon": 2, "setorder": 3, "hist": 4, "pairs": 5}
+    out.sort(key=lambda c: rank[c["kind"]])
     return out
 
 
@@ -355,8 +358,8 @@ def run_hist(case, res):
         if _DYN_SCHED < DYN_SCHED_CAP:
             _DYN_SCHED += 1
             d = key[0].split(":")[1] if key[0].startswith(("qb:", "setop:")) else "generic"
-            for ops in (["i:" + d, "i:" + d], ["str", "p:" + d]):
-                run_sched({"key": key, "ops": ops, "bound": 1, "max_exec": 1500}, res)
+            for ops in (["i:" + d, "p:" + d],):
+                run_sched({"key": key, "ops": ops, "bound": 1, "max_exec": 400}, res)
         else:
             res.extra["dyn_sched_skipped_cap"] = res.extra.get("dyn_sched_skipped_cap", 0) + 1
 
